@@ -6,7 +6,7 @@ Tie, part 2 (hand model + property oracle): random data and random method chains
 compared with the Python list operation applied to the full ordered result R.
 """
 import itertools, random
-from pony.orm import Database, Required, Optional, Set, db_session, select, count, sum as psum, min as pmin, max as pmax, avg, group_concat, desc, raw_sql
+from pony.orm import Database, Required, Optional, Set, PrimaryKey, left_join, rollback, db_session, select, count, sum as psum, min as pmin, max as pmax, avg, group_concat, desc, raw_sql
 from pony.orm import core
 from pony.orm.sqltranslation import combine_limit_and_offset
 
@@ -276,6 +276,131 @@ def method_oracle(ctx):
             if model_keys != real_keys:
                 ctx.divergence('order_by(m).order_by(k): model orderChain (Model/Aggr.lean) and real Pony disagree on the key sequence', rows, model=model_keys, impl=real_keys)
 
+def build_db2(rng, n):
+    """second schema: optional reference, primary key not declared first, grouped sources"""
+    db = Database()
+    class G2(db.Entity):
+        name = Required(str)
+        k = Required(int)
+        ts = Set('T2')
+    class T2(db.Entity):
+        b = Required(int)
+        a = Required(int)
+        id2 = PrimaryKey(int)
+        g = Optional(G2)
+    db.bind('sqlite', ':memory:')
+    db.generate_mapping(create_tables=True)
+    with db_session:
+        gs = [G2(name=rng.choice(['z', 'a', 'm', 'q']) + str(i), k=rng.choice([0, 1, 2])) for i in range(rng.choice([1, 2, 3]))]
+        ids = list(range(1, n + 1)); rng.shuffle(ids)
+        for i in ids:
+            T2(id2=i, a=rng.choice([0, 1, 2, 3]), b=rng.choice([1, 5, 7, 9, 11]) * 10 - i, g=rng.choice(gs + [None]))
+    return db, G2, T2
+
+def extra_oracle(ctx):
+    """limited subqueries over sources that cannot be folded into the outer query, bulk delete with aggregate
+    conditions, ordering through an optional reference, ordering an entity query by position"""
+    rng = ctx.rng
+    QUERIES = {
+        'grouped-source': 'q = select((t.a, count(t)) for t in T2).order_by(-1); list(q)',
+        'iterate-limited-grouped-source': 'select((a, c) for a, c in q.limit(l, offset=o)) with q = select((t.a, count(t)) for t in T2).order_by(-1); args = [rows, l, o]',
+        'sum-over-limited-grouped-source': 'select(sum(c) for a, c in q.limit(l, offset=o)) with q = select((t.a, count(t)) for t in T2).order_by(-1); args = [rows, l, o]',
+        'iterate-page-of-grouped-source': 'select((a, c) for a, c in q.page(pn, ps)) with q = select((t.a, count(t)) for t in T2).order_by(-1); args = [rows, pn, ps]',
+        'iterate-limited-left_join-source': 'select((a, c) for a, c in ql.limit(l, offset=o)) with ql = left_join((g.name, t.id2) for g in G2 for t in g.ts).order_by(1, 2)',
+        'limited-query-as-second-for-clause': 'select((g, t) for g in G2 for t in T2.select().order_by(T2.id2).limit(l, offset=o) if t.g == g)',
+        'limited-projection-as-second-for-clause': 'select((g.k, i, a) for g in G2 for i, a in select((t.id2, t.a) for t in T2).order_by(1).limit(l, offset=o) if a == g.k)',
+    }
+    state = {}
+    def check(what, got, exp, inp, key=None):
+        ctx.case([what] + list(inp), kind='oracle:' + what)
+        if got != exp:
+            ctx.violation('%s differs from the Python operation on the full result' % what,
+                          {'method': what, 'args': list(inp), 'query': QUERIES.get(what), 'T2 rows (id2, a, b, g)': state.get('rows')},
+                          observed=got, expected=exp, key=key or 'method2:%s:%r' % (what, list(inp)))
+    def run(f):
+        try: return f()
+        except Exception as e: return 'raised %s: %s' % (type(e).__name__, str(e)[:80])
+    for rd in range(ctx.scale(5, 50)):
+        n = rng.choice([0, 1, 3, 6, 9, 12])
+        db, G2, T2 = build_db2(rng, n)
+        with db_session:
+            allT = sorted(T2.select()[:], key=lambda t: t.id2)
+            state['rows'] = [(t.id2, t.a, t.b, t.g and t.g.id) for t in allT]
+            # --- grouped source (GROUP BY cannot be folded): R = [(a, count)] ordered by a descending
+            grouped = {}
+            for t in allT: grouped[t.a] = grouped.get(t.a, 0) + 1
+            R = sorted(grouped.items(), key=lambda p: -p[0])
+            q = select((t.a, count(t)) for t in T2).order_by(-1)
+            check('grouped-source', run(lambda: list(q)), R, [n])
+            for _ in range(ctx.scale(6, 10)):
+                l = rng.choice([None, 0, 1, 2, 3, 10]); o = rng.choice([None, 0, 1, 2, 4])
+                if l is None and o is None: continue
+                win = py_window(R, l, o)
+                check('iterate-limited-grouped-source', run(lambda: sorted(select((a, c) for a, c in q.limit(l, offset=o)))), sorted(win), [n, l, o],
+                      key='subquery-window:grouped:%s' % ('offset' if o else 'limit'))
+                check('sum-over-limited-grouped-source', run(lambda: select(sum(c) for a, c in q.limit(l, offset=o)).first() or 0), sum(c for a, c in win), [n, l, o],
+                      key='subquery-window:grouped-aggregate:%s' % ('offset' if o else 'limit'))
+                pn = rng.choice([1, 2, 3]); ps = rng.choice([1, 2])
+                check('iterate-page-of-grouped-source', run(lambda: sorted(select((a, c) for a, c in q.page(pn, ps)))), sorted(R[(pn - 1) * ps: pn * ps]), [n, pn, ps],
+                      key='subquery-window:grouped:page')
+                # left_join source
+                Rl = sorted(((g.name, t.id2 if t else None) for g in G2.select() for t in (list(g.ts) or [None])), key=lambda p: (p[0], p[1] or 0))
+                ql = left_join((g.name, t.id2) for g in G2 for t in g.ts).order_by(1, 2)
+                got_full = run(lambda: list(ql))
+                if isinstance(got_full, list) and got_full == Rl:
+                    check('iterate-limited-left_join-source', run(lambda: sorted(select((a, c) for a, c in ql.limit(l, offset=o)), key=lambda p: (p[0], p[1] or 0))),
+                          py_window(Rl, l, o), [n, l, o], key='subquery-window:left_join:%s' % ('offset' if o else 'limit'))
+                # the limited query as a NON-first for clause
+                inner = select(t for t in T2).order_by(T2.id2).limit(l, offset=o)
+                winT = py_window(allT, l, o)
+                got2 = run(lambda: sorted((g.id, t.id2) for g, t in select((g, t) for g in G2 for t in inner if t.g == g)))
+                check('limited-query-as-second-for-clause', got2, sorted((t.g.id, t.id2) for t in winT if t.g is not None), [n, l, o],
+                      key='limited-entity-query-as-non-first-for-clause:AssertionError' if str(got2).startswith('raised AssertionError')
+                          else 'subquery-window:second-for:%s' % ('offset' if o else 'limit'))
+                # ... and a limited PROJECTION as a non-first for clause (this form is translated)
+                innerp = select((t.id2, t.a) for t in T2).order_by(1).limit(l, offset=o)
+                winP = py_window([(t.id2, t.a) for t in allT], l, o)
+                check('limited-projection-as-second-for-clause', run(lambda: sorted(select((g.k, i, a) for g in G2 for i, a in innerp if a == g.k))),
+                      sorted(set((g.k, i, a) for g in G2.select() for i, a in winP if a == g.k)), [n, l, o], key='subquery-window:second-for-projection:%s' % ('offset' if o else 'limit'))
+            # --- ordering an entity query by position / first(): Python's sorted(R) compares entities by key
+            byb = [t.id2 for t in sorted(allT, key=lambda t: t.b)]
+            got = run(lambda: [t.id2 for t in select(t for t in T2).order_by(1)])
+            ctx.case(['order_by-number-entity', n], kind='oracle:order_by-number-entity')
+            if got != [t.id2 for t in allT]:
+                ctx.violation('select(t for t in T).order_by(1) / first() on an entity whose primary key is not declared first orders by the first declared attribute, not by the key',
+                              {'entity': 'b = Required(int); a = Required(int); id2 = PrimaryKey(int)', 'rows': [(t.id2, t.b) for t in allT]},
+                              observed=got, expected=[t.id2 for t in allT],
+                              key='order_by-number-on-entity-with-pk-not-declared-first' if got == byb else 'method2:order_by(1):%r' % (got,))
+            # --- ordering through an optional reference only permutes
+            got = run(lambda: sorted(t.id2 for t in select(t for t in T2).order_by(lambda t: t.g.name)))
+            ctx.case(['order_by-optional-path', n], kind='oracle:order_by-optional-path')
+            if got != [t.id2 for t in allT]:
+                nonnull = [t.id2 for t in allT if t.g is not None]
+                ctx.violation('ordering by an attribute path through an optional reference drops the rows whose reference is NULL',
+                              {'query': 'select(t for t in T).order_by(lambda t: t.g.name)', 'rows': [(t.id2, t.g and t.g.name) for t in allT]},
+                              observed=got, expected=[t.id2 for t in allT],
+                              key='order_by-through-optional-reference-drops-rows' if got == nonnull else 'method2:order_by-optional-path:%r' % (got,))
+            got = run(lambda: [(t.g.name, t.id2) for t in select(t for t in T2 if t.g is not None).order_by(lambda t: (t.g.name, t.id2))])
+            check('order_by-required-path', got, sorted((t.g.name, t.id2) for t in allT if t.g is not None), [n])
+        # --- bulk delete with aggregate conditions removes exactly the selected rows
+        for src, mk, pyf in [('select(t for t in T2 if count(t.g.ts) > 1)', lambda: select(t for t in T2 if count(t.g.ts) > 1), lambda t: t.g is not None and len(t.g.ts) > 1),
+                             ('select(t for t in T2 if sum(t.g.ts.b) > 60)', lambda: select(t for t in T2 if psum(t.g.ts.b) > 60), lambda t: t.g is not None and sum(x.b for x in t.g.ts) > 60),
+                             ('select(t for t in T2 if t.a > 0 and count(t.g.ts) == 1)', lambda: select(t for t in T2 if t.a > 0 and count(t.g.ts) == 1),
+                              lambda t: t.a > 0 and t.g is not None and len(t.g.ts) == 1)]:
+            with db_session:
+                before = {t.id2: bool(pyf(t)) for t in T2.select()}
+                sel = run(lambda: sorted(t.id2 for t in mk()))
+                check('aggregate-condition-select', sel, sorted(i for i, s in before.items() if s), [src, n])
+                cnt = run(lambda: mk().delete(bulk=True))
+                left = sorted(t.id2 for t in T2.select())
+                exp = sorted(i for i, s in before.items() if not s)
+                ctx.case(['bulk-delete-aggregate', src, n], kind='oracle:bulk-delete-aggregate')
+                if left != exp or cnt != len(before) - len(exp):
+                    ctx.violation('bulk delete of a query with an aggregate condition did not remove exactly the selected rows', {'query': src + '.delete(bulk=True)', 'before': before},
+                                  observed={'left': left, 'count': cnt}, expected={'left': exp, 'count': len(before) - len(exp)}, key='bulk-delete:aggregate-condition')
+                rollback()
+        db.disconnect()
+
 def aggr_tie(ctx):
     """hand model of the aggregates (Model/Aggr.lean) against real Pony on SQLite: nullable int column, every flag"""
     if not ctx.driver.ok:
@@ -358,7 +483,7 @@ def gconcat_tie(ctx):
 
 def run(ctx):
     translator_tie(ctx)
-    for part in (aggr_tie, gconcat_tie, method_oracle):
+    for part in (aggr_tie, gconcat_tie, method_oracle, extra_oracle):
         try:
             part(ctx)
         except Exception as e:
